@@ -130,6 +130,8 @@ type Exec struct {
 	houdiniCache    map[string]map[string]bool // shared between trial clones
 	hinted          map[string]int             // keys whose cache entry came from the hints file (size of the hinted set)
 	hintPrefix      string
+	unitTags        []string
+	interfere       bool // atomic_only locations change arbitrarily between this goroutine's accesses
 	globalsInit     map[string]bool
 	atomicOnly      map[string][]string
 	inAtomic        bool
